@@ -2,3 +2,5 @@ import QeepProofs.Index
 import QeepProofs.Bcast
 import QeepProofs.Heap
 import QeepProofs.Graph
+import QeepProofs.Transpose
+import QeepProofs.Slice
